@@ -230,6 +230,23 @@ pub fn short(msg: &str) -> String {
 // ---------------------------------------------------------------------------------------
 // C01
 
+/// a Move value generated on a position that differs from `p` in side to move, clocks and e.p. square
+fn foreign_sentinel(p: &Pos) -> Option<Move> {
+    thread_local! {
+        static FOREIGN: std::cell::RefCell<Option<[Move; 2]>> = std::cell::RefCell::new(None);
+    }
+    FOREIGN.with(|f| {
+        let mut f = f.borrow_mut();
+        if f.is_none() {
+            let w = Bitboard::from_fen_string("4k3/8/8/3pP3/8/8/8/4K3 w - d6 0 1").ok()?.generate_pseudo_legal_moves();
+            let b = Bitboard::from_fen_string("4k3/8/8/8/3Pp3/8/8/4K3 b - d3 0 1").ok()?.generate_pseudo_legal_moves();
+            *f = Some([*w.first()?, *b.first()?]);
+        }
+        // the one whose side to move is the other one
+        f.as_ref().map(|m| if p.stm == WHITE { m[1] } else { m[0] })
+    })
+}
+
 fn c01(ctx: &BoardCtx, p: &Pos, fen: &str, b: &mut Bitboard) {
     let ref_legal = p.legal();
     let mut local = BTreeMap::new();
@@ -293,10 +310,16 @@ fn c01(ctx: &BoardCtx, p: &Pos, fen: &str, b: &mut Bitboard) {
     // forms (what the search calls, into a buffer that already holds something), `is_move_legal`,
     // `is_any_move_non_quiescent`
     {
-        let sentinel = pseudo.first().copied();
+        // what already is in the buffer belongs to ANOTHER position (other side to move, another
+        // clock, a pending e.p. square) — as in a line whose plies share one growing buffer — and
+        // must come out of the call bit for bit as it went in (or be gone, if the call clears)
+        let sentinel = foreign_sentinel(p);
         let mut buf: Vec<Move> = sentinel.into_iter().collect();
         let keep = buf.len();
         b.generate_pseudo_legal_moves_with_buffer(&mut buf);
+        if buf.len() == keep + pseudo.len() && keep > 0 && buf[..keep].iter().map(|m| m.bits).collect::<Vec<_>>() != sentinel.iter().map(|m| m.bits).collect::<Vec<_>>() {
+            ctx.viol("entry_points:generator_call_changed_moves_already_in_the_buffer".into(), fen, json!({"before": sentinel.iter().map(|m| m.bits).collect::<Vec<_>>(), "after": buf[..keep].iter().map(|m| m.bits).collect::<Vec<_>>()}));
+        }
         // whether the function appends to the buffer or starts by clearing it is not specified:
         // both are accepted, the moves it contributes must be the plain form's
         let tail = |buf: &Vec<Move>, n: usize| -> Vec<u64> {
@@ -313,6 +336,9 @@ fn c01(ctx: &BoardCtx, p: &Pos, fen: &str, b: &mut Bitboard) {
         }
         let mut buf: Vec<Move> = sentinel.into_iter().collect();
         b.generate_pseudo_legal_non_quiescent_moves_with_buffer(&mut buf);
+        if buf.len() == keep + nonq.len() && keep > 0 && buf[..keep].iter().map(|m| m.bits).collect::<Vec<_>>() != sentinel.iter().map(|m| m.bits).collect::<Vec<_>>() {
+            ctx.viol("entry_points:generator_call_changed_moves_already_in_the_buffer:non_quiescent".into(), fen, json!({"before": sentinel.iter().map(|m| m.bits).collect::<Vec<_>>(), "after": buf[..keep].iter().map(|m| m.bits).collect::<Vec<_>>()}));
+        }
         let a = tail(&buf, nonq.len());
         if a != nonq_bits {
             ctx.viol("entry_points:generate_pseudo_legal_non_quiescent_moves_with_buffer_differs".into(), fen, json!({"with_buffer": buf.iter().map(|m| m.to_uci_string()).collect::<Vec<_>>(), "plain": nonq.iter().map(|m| m.to_uci_string()).collect::<Vec<_>>()}));
@@ -649,6 +675,9 @@ pub fn long_line(ctx: &BoardCtx, root: &Pos, plies: usize, rule: u64) -> u64 {
         let mut made: Vec<Move> = Vec::with_capacity(plies);
         let mut h = b.calculate_zobrist_hash();
         let mut ph = b.calculate_zobrist_pawn_hash();
+        let mut shared: Vec<Move> = Vec::new();
+        let mut shared_idx: Vec<usize> = Vec::new();
+        let mut shared_ok = rule == 7; // one of the two move-choice rules runs on the shared buffer
         for ply in 0..plies {
             let legal = p.legal();
             // prefer reversible moves so the line goes on; fixed, reproducible choice
@@ -669,9 +698,27 @@ pub fn long_line(ctx: &BoardCtx, root: &Pos, plies: usize, rule: u64) -> u64 {
             }
             let rm = *cands[((ply as u64).wrapping_mul(rule).wrapping_add(rule >> 3) % cands.len() as u64) as usize];
             let rk = mkey_ref(&rm);
-            let sm = match b.generate_pseudo_legal_moves().into_iter().find(|m| mkey_sub(m) == rk) {
-                Some(m) => m,
-                None => break, // C01's business
+            // C03: the plies of the line share ONE growing buffer (generator called in its appending
+            // form at every ply); the moves are taken back from that buffer at the end
+            let sm = if ctx.prop == Prop::C03 && shared_ok {
+                let before_len = shared.len();
+                b.generate_pseudo_legal_moves_with_buffer(&mut shared);
+                if shared.len() < before_len {
+                    shared_ok = false; // the call clears the buffer: a legitimate alternative
+                }
+                let from = if shared_ok { before_len } else { 0 };
+                match (from..shared.len()).find(|&i| mkey_sub(&shared[i]) == rk) {
+                    Some(i) => {
+                        shared_idx.push(i);
+                        shared[i]
+                    }
+                    None => break,
+                }
+            } else {
+                match b.generate_pseudo_legal_moves().into_iter().find(|m| mkey_sub(m) == rk) {
+                    Some(m) => m,
+                    None => break, // C01's business
+                }
             };
             snaps.push(snap(&b));
             let (x, px) = Bitboard::zobrist_xor(sm);
@@ -700,7 +747,9 @@ pub fn long_line(ctx: &BoardCtx, root: &Pos, plies: usize, rule: u64) -> u64 {
         let n = made.len();
         if ctx.prop == Prop::C03 {
             for i in (0..n).rev() {
-                b.unmake(made[i]);
+                // from the shared buffer, as it is NOW (after all the later generator calls)
+                let mv = if shared_ok && shared_idx.len() == n { shared[shared_idx[i]] } else { made[i] };
+                b.unmake(mv);
                 let s = snap(&b);
                 if s != snaps[i] {
                     let d = snaps[i].diff(&s);
